@@ -180,7 +180,8 @@ CHECKS = {
         "arbitrary Section variables: non-interference of excluded events, equality with the dataset restricted to "
         "the selected events, disabled filtering uses all events; exact definitions over Z of events, mean, median, "
         "mode bin, percentile brackets (with the one-event slack numpy's definition needs; the no-slack form is "
-        "refuted). PARTIAL: the estimators' numerics are differential testing against numpy/scipy reference estimators.",
+        "refuted); the statistics method inventory is REGENERATED from /repo (stat_methods.py) and compared with the "
+        "model's table. PARTIAL: the estimators' numerics are differential testing against numpy/scipy reference estimators.",
    note="Trusted: Coq kernel+vm_compute; estimator numerics NOT proved (reference estimators with stated tolerances); "
         "model tied by correspondence and a three-dataset metamorphic oracle (filtered / restricted / adversarial values).",
    technique="Coq non-interference proofs with abstract estimators + exact statistics definitions + metamorphic/differential correspondence",
@@ -258,7 +259,9 @@ CHECKS = {
         "(fuel = distinct keys + 1 is never exhausted; the set of not-yet-ignored keys strictly decreases along every "
         "followed edge), no ignored key is instantiated at any depth, a non-hdf5 root never opens a file by local "
         "path at any depth, data are only served through existing matching basins, listed features are justified by "
-        "reachable basins. Tied by correspondence on exhaustive and random basin graphs opened locally and through "
+        "reachable basins and lie within the declared feature lists; the per-format permission flags and basin "
+        "class types are REGENERATED from /repo by a translator (basin_flags.py) and proved equal to the model's. "
+        "Tied by correspondence on exhaustive and random basin graphs opened locally and through "
         "RTDC_HTTP / RTDC_S3 against loopback servers.",
    note="Trusted: Coq kernel+vm_compute; model tied by differential testing; availability is an oracle fixed by the "
         "world; NOT modelled: availability-checker threads, DCOR transport (unreachable here). Known finding: "
